@@ -26,9 +26,14 @@ class ValueAdapter(Adapter):
     def assign(self, old_value, old_node, new_value):
         # generic fallback
         from .._snapshot.undecided_value import contains_unmanaged
+        from .._snapshot.undecided_value import has_star_expression
 
         # because IsStr() != IsStr()
         if isinstance(old_value, Unmanaged):
+            return old_value
+
+        if isinstance(old_node, ast.Set) and has_star_expression(old_node):
+            # containers with star-expressions are not changed
             return old_value
 
         if old_node is None:
